@@ -57,8 +57,8 @@ def fillRange {α : Type} (l : List α) (start : Nat) : Nat → α → List α
   | 0, _ => l
   | n + 1, v => fillRange (l.set start v) (start + 1) n v
 
-/-- `newQueue[i] = old[i]` for `i < old.length`.  (C++ writes past the end of `buf` when it is
-    shorter than `xs`: defect D1, excluded by `EnsurePre`.) -/
+/-- `newQueue[i] = old[i]` for `i < old.length` (`EnsureSizeAux` guarantees `xs.length ≤ buf.length`
+    since commit 97f299d; proved as part of `ensureCore_*`) -/
 def overwritePrefix {α : Type} (buf xs : List α) : List α := xs ++ buf.drop xs.length
 
 /-- insertion into a sorted list after every element that is not greater (stable) -/
@@ -166,20 +166,24 @@ def removeTailMulti (q : Ring α) (n : Nat) : Ring α × Nat :=
   else if c.clear then (iter (fun r => (r.removeTail c).1) n q, n)
   else ({ q with tail := (if q.tail < n then q.tail + q.size else q.tail) - n, count := q.count - n }, n)
 
-/-- `EnsureSizeAux(size, setNumItems, extraPreallocs, retOldArray, allowShrink)`; always `B_NO_ERROR`
-    in the modelled range -/
-def ensureSizeAux (q : Ring α) (size : Nat) (setNum : Bool) (extra : Nat) (shrink : Bool) : Ring α :=
+/-- the reallocation block of `EnsureSizeAux`: new array (heap, or the inline buffer when the old one is a heap array
+    and `sqLen` slots suffice), items moved to its start, `setNumItems` applied, old inline buffer reset -/
+def realloc (q : Ring α) (size : Nat) (setNum : Bool) (extra : Nat) : Ring α :=
+  let newQLen := max c.sq (size + extra)
+  let toSmall : Bool := !(decide (q.kind = .small) || decide (newQLen > c.sq))
+  let nb0 := if toSmall then q.sbuf else fresh c newQLen
+  let nb1 := overwritePrefix nb0 (q.abs c)
+  let nb2 := if setNum = true ∧ size > q.count ∧ c.clear = false then fillRange nb1 q.count (size - q.count) c.dflt else nb1
+  let cnt := if setNum = true then size else q.count
+  { slots := nb2, head := 0, tail := cnt - 1, count := cnt,
+    kind := if toSmall then .small else .heap,
+    sbuf := if q.kind = .small then (if c.clear then List.replicate c.sq c.dflt else q.slots) else q.sbuf }
+
+/-- `EnsureSizeAux` after its first statement (the guard for `allowShrink` with fewer slots than items):
+    reallocation if needed, then the item count is forced to `size` when `setNumItems` -/
+def ensureCore (q : Ring α) (size : Nat) (setNum : Bool) (extra : Nat) (shrink : Bool) : Ring α :=
   let q1 : Ring α :=
-    if q.kind = .null ∨ (if shrink then q.size ≠ size + extra else q.size < size) then
-      let newQLen := max c.sq (size + extra)
-      let toSmall : Bool := !(decide (q.kind = .small) || decide (newQLen > c.sq))
-      let nb0 := if toSmall then q.sbuf else fresh c newQLen
-      let nb1 := overwritePrefix nb0 (q.abs c)
-      let nb2 := if setNum ∧ size > q.count ∧ c.clear = false then fillRange nb1 q.count (size - q.count) c.dflt else nb1
-      let cnt := if setNum then size else q.count
-      { slots := nb2, head := 0, tail := cnt - 1, count := cnt,
-        kind := if toSmall then .small else .heap,
-        sbuf := if q.kind = .small then (if c.clear then List.replicate c.sq c.dflt else q.slots) else q.sbuf }
+    if q.kind = .null ∨ (if shrink then q.size ≠ size + extra else q.size < size) then q.realloc c size setNum extra
     else q
   if setNum then
     if size > q1.count then
@@ -187,6 +191,15 @@ def ensureSizeAux (q : Ring α) (size : Nat) (setNum : Bool) (extra : Nat) (shri
       { q2 with tail := prevIndex q2.size (q2.phys size), count := size }
     else (q1.removeTailMulti c (q1.count - size)).1
   else q1
+
+/-- `EnsureSizeAux(size, setNumItems, extraPreallocs, retOldArray, allowShrink)`; always `B_NO_ERROR`
+    in the modelled range.  First statement (commit 97f299d):
+    `if (allowShrink && size < _itemCount) {if (setNumItems) RemoveTailMulti(_itemCount-size); else size = _itemCount;}` -/
+def ensureSizeAux (q : Ring α) (size : Nat) (setNum : Bool) (extra : Nat) (shrink : Bool) : Ring α :=
+  if shrink = true ∧ size < q.count then
+    if setNum then ensureCore c (q.removeTailMulti c (q.count - size)).1 size setNum extra shrink
+    else ensureCore c q q.count setNum extra shrink
+  else ensureCore c q size setNum extra shrink
 
 /-- the common part of `AddTailAndGet(item)` / `AddTailAndGet()`: make room, advance `_tailIndex`,
     count the new item; its slot is `tail` -/
